@@ -17,7 +17,7 @@ if [ "$1" = "--one" ]; then
     rc=$?
     rule=$(printf "%s" "$out" | grep -a -m1 "^  rule=" | cut -c1-100)
     verdict=$(python3 -c "import json;print(json.load(open('$d/meta.json')).get('verdict',''))")
-    if [ $rc -eq 1 ]; then echo "$id CAUGHT $rule"; elif [ $rc -eq 0 ] && [ "$verdict" = "not-caught" ]; then echo "$id NOT-CAUGHT (as recorded, see DESIGN.md 11.6)"; elif [ $rc -eq 0 ]; then echo "$id MISSED"; else echo "$id HARNESS rc=$rc"; fi
+    if [ $rc -eq 1 ]; then echo "$id CAUGHT $rule"; elif [ $rc -eq 0 ] && [ "$verdict" = "not-caught" ]; then echo "$id NOT-CAUGHT (as recorded, see DESIGN.md 11.6)"; elif [ $rc -eq 0 ]; then echo "$id MISSED"; elif [ "$verdict" = "not-caught" ]; then echo "$id NOT-CAUGHT (as recorded; the check ended with rc=$rc: $(printf "%s" "$out" | grep -a -m1 -o "NONDETERMINISM\|HARNESS-ERROR" | head -1))"; else echo "$id HARNESS rc=$rc"; fi
     rm -rf $tree $rp
     exit 0
 fi
